@@ -57,6 +57,9 @@ CHECKS = {
  "C04": dict(cat="exploration", ref="6/C04", tech="event-trace monitor: RUN/POKE events of the reference BASIC09 interpreter executing convert() output vs the events the Color BASIC reference derives from a role table; positions mapped to PARAM names of the current library",
    text="every device statement form x presence pattern of optional operands (exhaustive) with operand kinds rotated / multiplied, each operand carrying a distinct value; procedure, parameter-name placement, defaults, call order of device functions and the HBUFF prologue are compared",
    note="role table = DESIGN.md Appendix B; device procedures are stubs (their screen effect is not modelled)"),
+ "C05": dict(cat="exploration", ref="6/C05", tech="call-event trace monitor (reference BASIC09 interpreter vs Color BASIC reference, scripted device tape) plus a static def-before-use monitor for tmp_N per emitted statement group",
+   text="every convertible-function nesting in every carrier statement: the sequence of (procedure, argument values) must equal the source's left-to-right innermost-first call sequence, results must reach the right place, and no physical line may read a temporary it did not assign",
+   note="STR$'s known format defect is emulated on the source side so that only calls are judged here"),
 }
 
 def main():
